@@ -173,7 +173,8 @@ pub fn display_ident(f: &mut std::fmt::Formatter, ident: &Ident) -> Result<(), s
 
 pub fn display_ident_part(f: &mut std::fmt::Formatter, s: &str) -> Result<(), std::fmt::Error> {
     fn forbidden_start(c: char) -> bool {
-        !(c.is_ascii_alphabetic() || matches!(c, '_' | '$'))
+        // (`$` starts a parameter, not a name)
+        !(c.is_ascii_alphabetic() || c == '_')
     }
     fn forbidden_subsequent(c: char) -> bool {
         !(c.is_ascii_alphabetic() || c.is_ascii_digit() || c == '_')
